@@ -2,6 +2,7 @@
 package lease_set2
 
 import (
+	stded25519 "crypto/ed25519"
 	"encoding/binary"
 	"sort"
 	"strings"
@@ -13,6 +14,8 @@ import (
 	"github.com/go-i2p/common/lease"
 	"github.com/go-i2p/common/offline_signature"
 	sig "github.com/go-i2p/common/signature"
+	"github.com/go-i2p/crypto/ed25519"
+	"github.com/go-i2p/crypto/types"
 	"github.com/go-i2p/logger"
 	"github.com/samber/oops"
 )
@@ -996,9 +999,9 @@ func determineSignatureType(dest destination.Destination, offlineSig *offline_si
 }
 
 // createLeaseSet2Signature signs the LeaseSet2 data with the provided key.
+// A nil signingKey yields an all-zero placeholder signature of the correct size
+// (such a LeaseSet2 does not verify); any other key must be usable as a signer.
 func createLeaseSet2Signature(signingKey interface{}, data []byte, sigType uint16) (sig.Signature, error) {
-	// This is a placeholder - actual signing would use the crypto library
-	// For now, we create a zero signature of the correct size
 	sigSize := offline_signature.SignatureSize(sigType)
 	if sigSize == 0 {
 		return sig.Signature{}, oops.
@@ -1007,9 +1010,22 @@ func createLeaseSet2Signature(signingKey interface{}, data []byte, sigType uint1
 			Errorf("unknown signature type: %d", sigType)
 	}
 
-	// TODO: Implement actual signing using the signingKey
-	// This would call into crypto/signature package to create real signatures
-	// For now, return an empty signature of the correct size
+	signer, err := signerFromKey(signingKey)
+	if err != nil {
+		return sig.Signature{}, err
+	}
+	if signer != nil {
+		signatureData, err := signer.Sign(data)
+		if err != nil {
+			return sig.Signature{}, oops.Errorf("failed to sign LeaseSet2: %w", err)
+		}
+		signature, err := sig.NewSignatureFromBytes(signatureData, int(sigType))
+		if err != nil {
+			return sig.Signature{}, oops.Errorf("failed to create signature: %w", err)
+		}
+		return signature, nil
+	}
+
 	signatureData := make([]byte, sigSize)
 	signature, err := sig.NewSignatureFromBytes(signatureData, int(sigType))
 	if err != nil {
@@ -1020,7 +1036,33 @@ func createLeaseSet2Signature(signingKey interface{}, data []byte, sigType uint1
 		"signature_type": sigType,
 		"signature_size": sigSize,
 		"data_size":      len(data),
-	}).Warn("Created placeholder signature - implement actual signing")
+	}).Warn("Created placeholder signature - no signing key provided")
 
 	return signature, nil
+}
+
+// signerFromKey turns the signingKey argument of NewLeaseSet2 into a Signer.
+// It accepts a types.Signer, a types.SigningPrivateKey or a standard library
+// ed25519.PrivateKey. A nil key yields a nil Signer and no error.
+func signerFromKey(signingKey interface{}) (types.Signer, error) {
+	switch key := signingKey.(type) {
+	case nil:
+		return nil, nil
+	case types.Signer:
+		return key, nil
+	case types.SigningPrivateKey:
+		signer, err := key.NewSigner()
+		if err != nil {
+			return nil, oops.Errorf("failed to create signer: %w", err)
+		}
+		return signer, nil
+	case stded25519.PrivateKey:
+		k, err := ed25519.NewEd25519PrivateKey(key)
+		if err != nil {
+			return nil, oops.Errorf("invalid Ed25519 private key: %w", err)
+		}
+		return k.NewSigner()
+	default:
+		return nil, oops.Errorf("unsupported signing key type: %T", signingKey)
+	}
 }
